@@ -201,6 +201,11 @@ def run_form(ctx, form, base, chain, script, kind, args, kwargs, split=None):
     return {"outcome": o, "fn_calls": list(env.fn_calls), "layer_calls": dict(env.layer_calls)}
 
 
+def strip_poll(d):
+    # how often a poll function sees a descriptor depends on timing (real-time poll thread), not on the form
+    return {k: v for k, v in d.items() if not k.startswith("poll")}
+
+
 def run_diff(case, res):
     rng = random.Random("c19/%s/%s" % (case["seed"], case["idx"]))
     for it in range(case["n"]):
@@ -237,7 +242,7 @@ def run_diff(case, res):
                 elif got["fn_calls"] != ref["fn_calls"]:
                     res.violation("bind-differs/invocations/%s" % form, "%s: fn invoked %s in %s form, %s in %s form"
                                   % (desc, ref["fn_calls"], ref_form, got["fn_calls"], form))
-                elif got["layer_calls"] != ref["layer_calls"] and form != "split":
+                elif strip_poll(got["layer_calls"]) != strip_poll(ref["layer_calls"]) and form != "split":
                     res.violation("bind-differs/layer-functions/%s" % form, "%s: layer functions called %s vs %s" % (desc, ref["layer_calls"], got["layer_calls"]))
                 if kind == "future" and got["outcome"][0] == "nested-future":
                     res.violation("flat_bind-nested-future", "%s: %s returned a nested future" % (desc, form))
@@ -319,6 +324,7 @@ def run_names(case, res):
             base_name = rng.choice([None, "alpha", "beta"])
             chain = gen_chain(rng, 5)
             bind_at = rng.choice([None, None] + list(range(len(chain) + 1)))
+            flat = rng.random() < 0.5
             kw = {"name": base_name} if base_name else {}
             cur = ctx.own(ME.Executors.sync(**kw) if base_kind == "sync" else ME.Executors.thread_pool(max_workers=1, **kw))
             expect = base_name or "default"
@@ -327,8 +333,17 @@ def run_names(case, res):
             desc = []
             for i, L in enumerate(chain + [None]):
                 if bind_at == i:
-                    cur = cur.bind(lambda: 1)
-                    desc.append("bind")
+                    if flat:
+                        cur = cur.flat_bind(lambda: ME.futures.f_return(1))
+                        desc.append("bind(flat)")
+                    else:
+                        cur = cur.bind(lambda: 1)
+                        desc.append("bind")
+                    ex0 = getattr(cur, "_BoundCallable__executor", None)
+                    if flat and getattr(ex0, "_name", expect) != expect:
+                        res.violation("name-not-inherited/flat_map/flat_bind",
+                                      "base=%s(name=%s) chain=%s: the flat_map layer created by flat_bind is named %r, expected %r"
+                                      % (base_kind, base_name, desc, getattr(ex0, "_name", None), expect))
                 if L is None:
                     break
                 explicit = rng.choice([None, None, None, "n%d" % i])
@@ -360,13 +375,13 @@ def run_names(case, res):
                 ex = cur if hasattr(cur, "shutdown") else getattr(cur, "_BoundCallable__executor", None)
                 layer_name = getattr(ex, "_name", None)
                 if layer_name is not None and layer_name != expect:
-                    res.violation("name-not-inherited/%s%s" % (L["t"], "/after-bind" if "bind" in desc else ""),
+                    res.violation("name-not-inherited/%s%s" % (L["t"], "/after-bind" if any(d.startswith("bind") for d in desc) else ""),
                                   "base=%s(name=%s) chain=%s: layer %d (%s) is named %r, expected %r" % (base_kind, base_name, desc, i, L["t"], layer_name, expect))
             res.execs += 1
             for t, thname, exp in created:
                 want = PREFIX[t] + exp
                 if thname != want:
-                    res.violation("thread-name/%s%s" % (t, "/after-bind" if "bind" in desc else ""),
+                    res.violation("thread-name/%s%s" % (t, "/after-bind" if any(d.startswith("bind") for d in desc) else ""),
                                   "base=%s(name=%s) chain=%s: %s layer created thread %r, expected %r" % (base_kind, base_name, desc, t, thname, want))
             if base_kind == "pool" and base_name:
                 # pool threads are created on first use
